@@ -839,7 +839,7 @@ def run(ctx):
             c = json.load(open(f))
             c['_corpus'] = os.path.basename(f)
             cases.append(c)
-        na, nl, nbig = ctx.scale(400, 8000), ctx.scale(320, 6000), ctx.scale(5, 100)
+        na, nl, nbig = ctx.scale(400, 5000), ctx.scale(320, 4000), ctx.scale(5, 60)
         cases += [gen_case_A(rng) for _ in range(na)] + [gen_case_L(rng) for _ in range(nl)]
         cases += [gen_case_A(rng, big=True) for _ in range(nbig)] + [gen_case_L(rng, big=True) for _ in range(nbig)]
     terms, meta = [], []
@@ -904,7 +904,7 @@ def run(ctx):
     tag = f'cases{os.getpid()}'          # private to this process: concurrent runs of this check do not collide
     try:
         lines = common.coq_eval('C06', 'Prelude Model.Roadm Run.C06', terms,
-                                per_file=max(12, len(terms) // ctx.scale(48, 400) + 1), tag=tag)
+                                per_file=max(12, len(terms) // ctx.scale(48, 300) + 1), tag=tag, timeout=3000)
     finally:
         wd = os.path.join(common.WORK, 'C06')
         for f in os.listdir(wd) if os.path.isdir(wd) else []:
